@@ -13,7 +13,7 @@ from twisted.internet import defer, task
 from twisted.python import log as txlog, failure
 
 MAXDEPTH = 8
-BUDGET_S = 90
+BUDGET_S = 60
 
 
 class Recorder:
